@@ -535,6 +535,16 @@ class C09(Prop):
                            "script u3 snoop cerr;dest:u1", "step conn:c1", "step conn:c2", "step conn:c3",
                            "step send:c1:spy/ send:c2:spy/", "step send:c3:spy/a/", "step send:c2:b/ send:c3:c/",
                            "step send:c1:kick/", "step send:c3:d/pa", "step send:c3:rt/ close:c1", "step send:c2:e/ send:c3:f/"])
+        # a snooper is REPLACED (two users snoop the same one), then the ends of the old and the new link go away in
+        # every order: the old snooper must not keep a link (remove_interactive() follows snoop_on / snoop_by)
+        for i, tail3 in enumerate([["step close:c3", "step close:c1", "step send:c2:a/"],
+                                   ["step close:c1", "step send:c3:a/b/", "step close:c2", "step send:c3:c/"],
+                                   ["step send:c1:quit/", "step send:c3:a/", "step close:c3 close:c2"],
+                                   ["step reset:c3 reset:c1 conn:c4", "step send:c4:a/ send:c2:b/"]]):
+            mk("snoop-replaced-snooper-%d" % i, ["mode net", "script u1 cmd:spy snoop:u3", "script u2 cmd:spy snoop:u3",
+                                                 "script u1 cmd:quit dest:me", "script u2 snoop w:saw", "script u1 snoop w:old",
+                                                 "step conn:c1", "step conn:c2", "step conn:c3", "step send:c1:spy/",
+                                                 "step send:c3:x1/", "step send:c2:spy/", "step send:c3:b/"] + tail3)
         mk("connect-rejected", ["mode net", "script k1 connect rej", "step conn:c1", "step conn:c2", "step send:c2:a/"])
         return B
 
@@ -708,6 +718,7 @@ class C09(Prop):
         quiet_next = False
         aba_done = False
         backlog_done = False
+        snoop_done = False
         user_of = {}                      # client -> ordinal of its user object (the console user is attempt 1)
         attempt = [1 if console else 0, 0 if (not console or 1 in refused) else 1]
 
@@ -789,6 +800,30 @@ class C09(Prop):
             if rng.chance(35, 100) or not acts:
                 acts.append(rng.weighted([("tick", 12), ("tick:1", 3), ("tick:5", 2), ("tick:1000", 4)]))
             lines.append("step " + " ".join(acts))
+            # directed: snoop links set, replaced and torn down in random order
+            if len(open_c) >= 3 and not snoop_done and rng.chance(10, 100):
+                snoop_done = True
+                cs = [c for c in open_c if c in user_of]
+                if len(cs) >= 3:
+                    rng.shuffle(cs)
+                    a, b, t = cs[0], cs[1], cs[2]
+                    verb = rng.choice(verbs)
+                    lines.append("script u%d cmd:%s snoop:u%d" % (user_of[a], verb, user_of[t]))
+                    lines.append("script u%d cmd:%s snoop:u%d" % (user_of[b], verb, user_of[t]))
+                    lines.append("step send:c%d:%s/" % (a, verb))
+                    lines.append("step send:c%d:%s" % (t, self.gen_text(rng, verbs, partial_ok=False)))
+                    lines.append("step send:c%d:%s/" % (b, verb))
+                    lines.append("step send:c%d:%s" % (t, self.gen_text(rng, verbs, partial_ok=False)))
+                    for c in (a, b, t):
+                        sent[c] = sent.get(c, 0) + 3
+                    order = [a, b, t]
+                    rng.shuffle(order)
+                    for c in order[:rng.range(1, 3)]:
+                        open_c.remove(c)
+                        lines.append("step %s:c%d" % (rng.choice(["close", "reset"]), c))
+                        rest = [x for x in (a, b, t) if x in open_c]
+                        if rest and rng.chance(60, 100):
+                            lines.append("step send:c%d:%s" % (rng.choice(rest), self.gen_text(rng, verbs, partial_ok=False)))
             # directed: a backlog of failing commands on one connection, commands pending on the others
             if len(open_c) >= 2 and not backlog_done and rng.chance(10, 100):
                 backlog_done = True
